@@ -32,17 +32,19 @@ MESH_CYCLE = {"tri2": "mixed2d", "mixed2d": "tri6k2", "quad8": "tri2", "mixed3d"
 
 def cases(tier, seed):
     out = []
-    depth = 3 if tier == "quick" else 4
-    starts = [("tri2", 1), ("mixed2d", 2), ("mixed3d", 3), ("quad8", 2)] if tier == "quick" else \
-        [(m, d) for m in ("tri2", "mixed2d", "mixed3d", "quad8") for d in (1, 2, 3)]
-    for mesh, dof_n in starts:
-        for slot0 in ([0, 1, 3] if tier == "quick" else range(SLOT_TABLES)):
-            for kind0 in (["real", "real_then_complex"] if tier == "quick" else KINDS):
-                for seq in itertools.product(OPS, repeat=depth):
-                    # histories that never assemble before the end prime no cache: keep only one representative of them
-                    if "assemble" not in seq[:-1] and seq[-1] != "assemble" and depth > 1:
-                        pass
-                    out.append({"kind": "history", "mesh": mesh, "dof_n": dof_n, "slot0": slot0, "kind0": kind0, "ops": list(seq)})
+    base_starts = [("tri2", 1), ("mixed2d", 2), ("mixed3d", 3), ("quad8", 2)]
+    if tier == "quick":
+        plans = [(3, base_starts, [0, 1, 3], ["real", "real_then_complex"])]
+    else:
+        # depth 4 from the quick starts with every slot table; depth 3 from every (mesh, dof_n, slot table, value kind)
+        plans = [(4, base_starts, list(range(SLOT_TABLES)), ["real", "real_then_complex"]),
+                 (3, [(m, d) for m in ("tri2", "mixed2d", "mixed3d", "quad8") for d in (1, 2, 3)], list(range(SLOT_TABLES)), KINDS)]
+    for depth, starts, slots, kinds in plans:
+        for mesh, dof_n in starts:
+            for slot0 in slots:
+                for kind0 in kinds:
+                    for seq in itertools.product(OPS, repeat=depth):
+                        out.append({"kind": "history", "mesh": mesh, "dof_n": dof_n, "slot0": slot0, "kind0": kind0, "ops": list(seq)})
     # real simulations: assembly == scatter-add of their own element arrays, first and repeated assembly
     for sim in ("elastic", "thermal", "phasefield", "beam", "weakform"):
         for mesh in ("tri2", "mixed2d", "quad8", "mixed3d", "tri6k2"):
@@ -70,7 +72,8 @@ def describe(tier, seed):
                 "4-node mesh, 3 representatives elsewhere) and direct form assembly. non-trivial = at least two assemblies with a different cache key; "
                 "distinct = fingerprint of the sequence of assembled systems",
         "exhaustive": True,
-        "bound": f"depth {depth}; starts: " + ("4 (mesh,dof_n) x 3 slot tables x 2 value kinds" if tier == "quick" else "12 (mesh,dof_n) x 5 slot tables x 4 value kinds"),
+        "bound": ("depth 3 from 4 (mesh,dof_n) x 3 slot tables x 2 value kinds" if tier == "quick" else
+                  "depth 4 from 4 (mesh,dof_n) x 5 slot tables x 2 value kinds, and depth 3 from 12 (mesh,dof_n) x 5 slot tables x 4 value kinds"),
         "alphabet": {"ops": len(OPS), "slot_tables": SLOT_TABLES, "value_kinds": len(KINDS), "meshes": len(MESHES)},
         "assumptions": ["dof convention node*dof_n + component (documented in Get_assembly_e)", "tolerance 1e-13 relative, real and imaginary parts"],
     }
